@@ -1376,7 +1376,23 @@ class SVG:
         if violations:
             raise ValueError("Unable to convert to picosvg: " + ",".join(violations))
 
+        # Dropping unpainted shapes or unsupported elements can leave a group
+        # that was kept for its opacity with fewer than two children
+        if self._remove_redundant_groups():
+            # opacity pushed down from a removed group is a fresh, unrounded product
+            self.round_floats(ndigits, inplace=True)
+
         return self
+
+    def _remove_redundant_groups(self) -> bool:
+        self._update_etree()
+        removed = False
+        for context in reversed(list(self.depth_first())):
+            if _is_group(context.element) and context.element is not self.svg_root:
+                removed |= _try_remove_group(context.element)
+        if removed:
+            self.elements = None
+        return removed
 
     @staticmethod
     def _swap_elements(swaps: Iterable[Tuple[etree.Element, Sequence[etree.Element]]]):
